@@ -10,6 +10,7 @@ import (
 	"flag"
 	"fmt"
 	"os"
+	"strings"
 
 	"github.com/metal-toolbox/audito-maldito/verifharness/l1"
 )
@@ -52,6 +53,12 @@ func main() {
 				}
 			}
 			if err != nil {
+				if strings.HasPrefix(err.Error(), "hang:") {
+					// the processor is stuck: an observation about the code under test (judged like a panic), not a
+					// failure of the driver
+					must(enc.Encode(map[string]any{"k": "panic", "what": err.Error()}))
+					break
+				}
 				fmt.Fprintln(os.Stderr, "harness:", err)
 				os.Exit(2)
 			}
